@@ -46,6 +46,25 @@
     * `project_single_file_resolution`: on a one-file environment the resolver is `Pipeline.resolveCall`;
     * `project_test_two_helpers`, `project_two_helpers_closure`, `project_test_same_record_two_files`:
       kernel evaluation of the whole project model on two followed modules with same-named helpers.
+  ROUND 3 (section at the end of the file):
+    * keywords spelled like a positional-only / `*args` / `**kwargs` parameter of a callee with `**kwargs`
+      (`record(ev, event=x)` for `def record(event, /, **fields)`): `C03_swaps_are_binding_inside_E1` — the
+      swaps are Python's binding also INSIDE the C04 class `E1` (only the diagnostic deviates), hence
+      `swapsAreBinding_outside_E2`, `C03_depthOne_full_holds_any_keywords`, `C03_tree_full_holds_any_keywords`
+      (the fragment theorems without the `E1` / distinct-keywords hypotheses);
+    * recursion, EVERY call graph: `C03_tree_node_contributes` (every node of the BFS call tree reaches the
+      root's result, unbound along its path), `C03_first_level_all_graphs`, `C03_direct_recursion_unrolled_once`,
+      `C03_second_level_all_graphs`, `C03_callTree_wellformed`; `C03_test_swap_recursion`;
+    * calls below statements without a dedicated visitor (`match` guards / subjects, conditions, `assert`,
+      `raise`, `await`, `yield`, f-strings, operators): `C03_call_under_compound_is_own_call`,
+      `C03_match_guard_call_is_own_call`, `C03_args_under_compound_reported`;
+    * static methods: `C03_static_method_registered_before_body`, `C03_static_body_sees_itself`;
+    * `pipeline_test_round3`: kernel evaluation of the whole pipeline model on a module with all three;
+    * Tie A (`py/tables/t_c03.py`): `tieA_function_visitors`, `tieA_generic_kinds_have_no_visitor`,
+      `tieA_static_method_steps`;
+    * the SPEC of the recursion clause, `Spec.unroll` (RattrModel/Spec/Unroll.lean; op `c03_spec` holds it and
+      `Spec.derive` against the harness' oracle on every generated program): `C03_unroll_is_derivable`,
+      `C03_unroll_contains_own`, `C03_unroll_direct_recursion`, `C03_test_unroll_swap`.
 -/
 import RattrProofs.Lemmas.Results
 import RattrProofs.Lemmas.ResultsCex
@@ -58,6 +77,13 @@ import RattrProofs.Props.C04
 import RattrProofs.Lemmas.Pipeline
 import RattrProofs.Lemmas.Project
 import RattrProofs.Lemmas.C03ClassAssign
+import RattrProofs.Lemmas.C03KwClash
+import RattrProofs.Lemmas.C03Unroll
+import RattrProofs.Lemmas.C03Nested
+import RattrProofs.Lemmas.C03StaticSelf
+import RattrProofs.Lemmas.C03UnrollSpec
+import RattrModel.FnVisitors
+import RattrModel.Generated.C03
 
 namespace Rattr.C03
 open Rattr Rattr.Results Rattr.Cex
@@ -1901,3 +1927,410 @@ theorem project_single_file_resolution (pf : PFacts) (f : Facts) (imp : ImpFacts
       | none => rfl
       | some k => simp [gkey, offset]
 end Rattr.C03
+
+
+/-! ## Round 3 — keyword / positional-only clashes, recursion of every callable, calls in every position -/
+
+namespace Rattr.C03
+open Rattr Rattr.Results Rattr.Cex Rattr.Spec
+
+/-! ### (1) a keyword spelled like a positional-only / `*args` / `**kwargs` parameter -/
+
+/-- **`C03_swaps_are_binding_inside_E1`.** `def record(event, /, **fields)` called
+`record(ev, event=x)`: Python binds `event := ev`, `fields := {"event": x}`.  For EVERY signature
+with distinct parameter names and EVERY call Python accepts that supplies the positional-only
+parameters, the swaps of `construct_call_swaps` are Python's binding plus stand-ins — also inside
+the C04 defect class `E1` (where the pinned code wrongly DIAGNOSES the call) and whether or not the
+keywords are distinct.  A keyword can re-bind neither a positional-only parameter nor one bound by
+position: the keyword loop consults the consumable interface lists only. -/
+theorem C03_swaps_are_binding_inside_E1 {α : Type} [DecidableEq α] (si : StandIns α)
+    (s : Spec.Sig α) (c : CallArgs α) (hn : s.iface.all.Nodup) (hE2 : ¬ C04.E2 s c)
+    (b : Spec.Binding α) (hb : Spec.pyBind s c = .ok b) :
+    C04.SameMap (Swaps.construct si s.iface c).1 (Spec.expectedSwapsLenient si s b) :=
+  swaps_binding_any_keywords si s c hn hE2 b hb
+
+/-- `def record(event, /, **fields)` (names: event = 1, fields = 2) · `record(ev, event=x)` (ev = 10, x = 11). -/
+def sigK : Spec.Sig Nat := { posonly := [⟨1, false⟩], args := [], vararg := none, kwonly := [], kwarg := some 2 }
+def callK : CallArgs Nat := ⟨[10], [(1, 11)]⟩
+
+/-- non-vacuity INSIDE `E1`, by evaluation: the call is in `E1`, Python accepts it, the pinned code
+diagnoses it ("by position and name") — and the swaps are `event ↦ ev`, `fields ↦ @Dict`, nothing
+else: the keyword did not re-bind `event`. -/
+theorem C03_test_kwclash :
+    C04.E1 sigK callK ∧ ¬ C04.E2 sigK callK ∧ (∃ b, Spec.pyBind sigK callK = .ok b) ∧
+    (Swaps.construct ⟨100, 200⟩ sigK.iface callK).2 = [SwapDiag.byPositionAndName [1]] ∧
+    (Swaps.construct ⟨100, 200⟩ sigK.iface callK).1 = [(1, 10), (2, 200)] := by
+  refine ⟨by decide, by decide, ?_, by decide, by decide⟩
+  have : (match Spec.pyBind sigK callK with | .ok _ => true | .error _ => false) = true := by decide
+  cases h : Spec.pyBind sigK callK with
+  | ok b => exact ⟨b, rfl⟩
+  | error e => rw [h] at this; cases this
+
+/-- every resolvable call supplies the positional-only parameters (outside the C04 class `E2`). -/
+def OutsideE2 (S : Spec.SProg) : Prop :=
+  ∀ f c g, c ∈ (fnAt S.prog f).calls → S.prog.resolve c.cid = some g → ¬ C04.E2 (Spec.sigAt S g) c.args
+
+theorem OutsideE1E2.e2 {S : Spec.SProg} (h : OutsideE1E2 S) : OutsideE2 S :=
+  fun f c g hc hr => (h f c g hc hr).2
+
+/-- **The C04 fact without the `E1` exclusion and without distinct keywords.** -/
+theorem swapsAreBinding_outside_E2 (S : Spec.SProg) (hSig : SigsDistinct S) (hE : OutsideE2 S) :
+    SwapsAreBinding S := by
+  intro f c g b hc hr hb k
+  exact C03_swaps_are_binding_inside_E1 (si S.prog) (Spec.sigAt S g) c.args (hSig g ⟨f, c, hc, hr⟩)
+    (hE f c g hc hr) b hb k
+
+/-- `C03_depthOne_full_holds` for callees with `**kwargs` called with ANY keywords: the full statement
+`C03_at` holds in the depth-one fragment with no hypothesis about how the keywords are spelled. -/
+theorem C03_depthOne_full_holds_any_keywords (S : Spec.SProg) (hP : DepthOne S.prog)
+    (hC : CidArgs S.prog) (hR : CalleeRootBased S) (hN : NoStarArgs S.prog) (hI : IfaceOfSig S)
+    (hA : AcceptedCalls S) (hSig : SigsDistinct S) (hE : OutsideE2 S)
+    (order : List Key) : C03_at S order :=
+  C03_depthOne_full_holds S hP hC hR hN hI hA (swapsAreBinding_outside_E2 S hSig hE) order
+
+/-- the tree fragment without the `E1` / distinct-keywords hypotheses. -/
+structure TreeFragmentK (S : Spec.SProg) : Prop where
+  tree : TreeLike S.prog
+  cid : CidArgs S.prog
+  rootBased : CalleeRootBased S
+  bare : BareArgs S.prog
+  iface : IfaceOfSig S
+  accepted : AcceptedCalls S
+  sigs : SigsDistinct S
+  e2 : OutsideE2 S
+
+theorem TreeFragmentK.hyps {S : Spec.SProg} (h : TreeFragmentK S) : TreeHyps S :=
+  ⟨h.cid, h.rootBased, h.bare, h.iface, h.accepted, swapsAreBinding_outside_E2 S h.sigs h.e2⟩
+
+theorem TreeFragment.toK {S : Spec.SProg} (h : TreeFragment S) : TreeFragmentK S :=
+  ⟨h.tree, h.cid, h.rootBased, h.bare, h.iface, h.accepted, h.sigs, h.c04.e2⟩
+
+/-- **C03 in the tree fragment, every root, any order — callees with `**kwargs` called with ANY
+keywords.**  The reported spellings are exactly the derivable ones, at any call depth. -/
+theorem C03_tree_any_order_any_keywords (S : Spec.SProg) (hF : TreeFragmentK S) (order : List Key)
+    (rs : List (Key × IrSets)) (σ' : Store) (hgen : generate S.prog order S.own = .ok (rs, σ'))
+    (f : Key) (res : IrSets) (hf : (f, res) ∈ rs) (n : Str) :
+    (n ∈ fulls res.gets ↔ Spec.DerivableGet S f n) ∧
+    (n ∈ fulls res.sets ↔ Spec.DerivableSet S f n) ∧
+    (n ∈ fulls res.dels ↔ Spec.DerivableDel S f n) := by
+  obtain ⟨_, hres, _, _⟩ := generate_tree hF.tree.2 hF.cid order S.own σ' rs (StoreInv.refl _ _) hgen
+  have hr := hres f res hf
+  have key : ∀ k : Kind, (∃ x ∈ res.of k, x.full = n) ↔ ∃ d, n ∈ (Spec.derive S d f).of k := by
+    intro k
+    rw [← clo_iff_derivable hF.hyps k f n]
+    constructor
+    · rintro ⟨x, hx, e⟩; exact ⟨x, (hr k x).mp hx, e⟩
+    · rintro ⟨x, hx, e⟩; exact ⟨x, (hr k x).mpr hx, e⟩
+  unfold fulls
+  simp only [List.mem_map]
+  exact ⟨key .get, key .set, key .del⟩
+
+/-- …hence the FULL statement `C03_at`. -/
+theorem C03_tree_full_holds_any_keywords (S : Spec.SProg) (hF : TreeFragmentK S) (order : List Key) :
+    C03_at S order := by
+  intro rs σ' hgen f res hf
+  have key := C03_tree_any_order_any_keywords S hF order rs σ' hgen f res hf
+  refine ⟨?_, ?_, ?_, fun _ => ⟨?_, ?_, ?_⟩⟩
+  · intro x hx; exact (key x.full).1.mp (List.mem_map.mpr ⟨x, hx, rfl⟩)
+  · intro x hx; exact (key x.full).2.1.mp (List.mem_map.mpr ⟨x, hx, rfl⟩)
+  · intro x hx; exact (key x.full).2.2.mp (List.mem_map.mpr ⟨x, hx, rfl⟩)
+  · intro n hn; exact (key n).1.mpr hn
+  · intro n hn; exact (key n).2.1.mpr hn
+  · intro n hn; exact (key n).2.2.mpr hn
+
+/-! ### (2) recursion: one unrolling, in the callable and in its callers — every call graph -/
+
+/-- **`C03_callTree_wellformed`** — whatever the program (cycles, diamonds): node 0 of the BFS call
+tree is the root, every child was created after its parent, and EVERY distinct resolvable call
+record of the root has a child of the root (the root's expansion is never cut by `seen`). -/
+theorem C03_callTree_wellformed (P : Prog) (root : Key) (nodes : List Results.Node)
+    (h : callTree P root = some nodes) :
+    nodes[0]? = some (rootNode root) ∧ ParentLt nodes ∧
+    ∀ c g, c ∈ (fnAt P root).calls → P.resolve c.cid = some g →
+      ∃ (j : Nat) (c' : CallRec), nodes[j]? = some ({ key := g, edgeIn := some c', parent := some 0 } : Results.Node) ∧
+        c' ∈ (fnAt P root).calls ∧ c'.cid = c.cid :=
+  callTree_wf P root nodes h
+
+/-- **`C03_tree_node_contributes`** — "contains at least one full unrolling": every node the BFS put
+into the call tree reaches the root's result.  `TreeContrib P nodes σ 0 k x`: `x` is an entry of the
+store, or the `unbind_name` image (under the swaps of the tree edge) of a contribution to a child.
+Holds for every program and every store (earlier roots may have written to it). -/
+theorem C03_tree_node_contributes (P : Prog) (σ σ' : Store) (root : Key) (res : IrSets)
+    (nodes : List Results.Node) (ht : callTree P root = some nodes)
+    (h : runRoot P σ root = .ok (res, σ')) (k : Kind) (x : NameS)
+    (hc : TreeContrib P nodes σ 0 k x) : x ∈ res.of k :=
+  runRoot_treeContrib P σ σ' root res nodes ht h k x hc
+
+/-- **`C03_first_level_all_graphs`** — for EVERY program: each resolvable call `c` of the root to `g`
+contributes the unbound image of every name of `g`'s entry (through the first call record of the
+root that equals `c` as a Call symbol). -/
+theorem C03_first_level_all_graphs (P : Prog) (σ σ' : Store) (root : Key) (res : IrSets)
+    (h : runRoot P σ root = .ok (res, σ')) (c : CallRec) (g : Key)
+    (hc : c ∈ (fnAt P root).calls) (hr : P.resolve c.cid = some g) :
+    ∃ c', c' ∈ (fnAt P root).calls ∧ c'.cid = c.cid ∧
+      ∀ (k : Kind) (x x' : NameS), x ∈ (σ g).of k →
+        unbindName x (imageOf P g c' x.base) = some x' → x' ∈ res.of k :=
+  runRoot_first_level P σ σ' root res h c g hc hr
+
+/-- **`C03_direct_recursion_unrolled_once`** — a callable that calls ITSELF (`P.resolve c.cid = some
+root`: a recursive function, lambda, static method `K.s(...)` inside `K.s`, initialiser
+constructing its own class): its own accesses, rewritten by the swaps of the recursive call, are
+in its results. -/
+theorem C03_direct_recursion_unrolled_once (P : Prog) (σ σ' : Store) (root : Key) (res : IrSets)
+    (h : runRoot P σ root = .ok (res, σ')) (c : CallRec)
+    (hc : c ∈ (fnAt P root).calls) (hr : P.resolve c.cid = some root) :
+    ∃ c', c' ∈ (fnAt P root).calls ∧ c'.cid = c.cid ∧
+      ∀ (k : Kind) (x x' : NameS), x ∈ (σ root).of k →
+        unbindName x (imageOf P root c' x.base) = some x' → x' ∈ res.of k :=
+  runRoot_first_level P σ σ' root res h c root hc hr
+
+/-- **`C03_second_level_all_graphs`** — the cycle entered from OUTSIDE: a grandchild node of the tree
+(e.g. the recursive call inside a callee) contributes to the caller through both substitutions. -/
+theorem C03_second_level_all_graphs (P : Prog) (σ σ' : Store) (root : Key) (res : IrSets)
+    (nodes : List Results.Node) (ht : callTree P root = some nodes)
+    (h : runRoot P σ root = .ok (res, σ')) (i j : Nat) (ch gch : Results.Node) (c1 c2 : CallRec)
+    (hi : nodes[i]? = some ch) (hpi : ch.parent = some 0) (hei : ch.edgeIn = some c1)
+    (hj : nodes[j]? = some gch) (hpj : gch.parent = some i) (hej : gch.edgeIn = some c2)
+    (k : Kind) (x x' x'' : NameS) (hx : x ∈ (σ gch.key).of k)
+    (hu1 : unbindName x (imageOf P gch.key c2 x.base) = some x')
+    (hu2 : unbindName x' (imageOf P ch.key c1 x'.base) = some x'') : x'' ∈ res.of k :=
+  runRoot_second_level P σ σ' root res nodes ht h i j ch gch c1 c2 hi hpi hei hj hpj hej k x x' x'' hx hu1 hu2
+
+/-- `swap(a, b): a.left = b.right; swap(b, a)` · `use(x, y): swap(x, y)` · `outer(u, v): use(v, u)`.
+keys 0 swap, 1 use, 2 outer; three different call records. -/
+def Pswap : Prog := {
+  fns := [ ⟨iface ["a", "b"], [call 0 "swap" ["b", "a"]]⟩, ⟨iface ["x", "y"], [call 1 "swap" ["x", "y"]]⟩,
+           ⟨iface ["u", "v"], [call 2 "use" ["v", "u"]]⟩ ],
+  resolve := fun c => match c with | 0 => some 0 | 1 => some 0 | 2 => some 1 | _ => none }
+def σswap : Store := fun k => match k with
+  | 0 => ⟨[nm "b.right" "b"], [nm "a.left" "a"], []⟩
+  | _ => IrSets.empty
+
+/-- TEST (kernel evaluation of the model on the recursive program above): one unrolling of the
+cycle is in the recursive function (`b.left`, `a.right`), in its caller and in the caller's caller,
+whichever root is generated first. -/
+theorem C03_test_swap_recursion :
+    setsOf Pswap σswap [0, 1, 2] 0 = some [s "a.left", s "b.left"] ∧
+    getsOf Pswap σswap [0, 1, 2] 0 = some [s "b.right", s "a.right"] ∧
+    setsOf Pswap σswap [2, 1, 0] 2 = some [s "v.left", s "u.left"] ∧
+    getsOf Pswap σswap [2, 1, 0] 1 = some [s "y.right", s "x.right"] := by decide +kernel
+
+/-- non-vacuity of `C03_direct_recursion_unrolled_once` on that program: the hypotheses hold for
+`swap`, and the conclusion yields `b.left` (from the own set `a.left` under `a ↦ b`). -/
+example : ∃ res σ', runRoot Pswap σswap 0 = .ok (res, σ') ∧ nm "b.left" "b" ∈ res.of .set := by
+  have hok : (match runRoot Pswap σswap 0 with | .ok _ => true | _ => false) = true := by decide +kernel
+  cases h : runRoot Pswap σswap 0 with
+  | ok p =>
+    obtain ⟨res, σ'⟩ := p
+    refine ⟨res, σ', rfl, ?_⟩
+    obtain ⟨c', hc', _, hall⟩ := C03_direct_recursion_unrolled_once Pswap σswap σ' 0 res h
+      (call 0 "swap" ["b", "a"]) (by decide) (by decide)
+    have hc : c' = call 0 "swap" ["b", "a"] := by simpa [Pswap, fnAt] using hc'
+    subst hc
+    exact hall .set (nm "a.left" "a") (nm "b.left" "b") (by decide) (by decide +kernel)
+  | outOfFuel => rw [h] at hok; cases hok
+  | never => rw [h] at hok; cases hok
+
+/-! ### (3) a call in ANY position is an own call -/
+
+open Rattr.AccessSpec in
+/-- **`C03_call_under_compound_is_own_call`** — "reported calls are exactly the function's own direct
+calls": if the analysis of a body (in the C01 fragment) succeeds, every call expression below
+statements / expressions without a dedicated visitor — `match` subject and `case … if guard(x)`,
+`if` / `while` conditions, `assert`, `raise`, `await`, `yield`, `yield from`, f-string fields,
+operands of every operator, `try` handlers — has a record in `calls` named after its callee. -/
+theorem C03_call_under_compound_is_own_call {env : FnA.Env} {mn : Str} {F : Feat}
+    (hm : ModClean env mn) {root : Context} {ps : Params} {body : List Rattr.Node}
+    (hb : fragL (dirtyKeys env mn root) F body = true) {s' : Rattr.St}
+    (h : FnA.analyse env mn root ps body = .ok s') {m : Rattr.Node} (hmem : m ∈ body)
+    {f : Rattr.Node} {args : List Rattr.Node} {kwn : List (Option Str)} {kwv : List Rattr.Node}
+    (hu : Under (.call f args kwn kwv) m) :
+    ∃ c ∈ s'.calls, c.name = Strs.withoutCallBrackets (spell f) :=
+  call_under_compound_recorded hm hb h hmem hu
+
+open Rattr.AccessSpec in
+/-- …and every access of its arguments is reported (the callee's parameters are rewritten to them). -/
+theorem C03_args_under_compound_reported {env : FnA.Env} {mn : Str} {F : Feat}
+    (hm : ModClean env mn) {root : Context} {ps : Params} {body : List Rattr.Node}
+    (hb : fragL (dirtyKeys env mn root) F body = true) {s' : Rattr.St}
+    (h : FnA.analyse env mn root ps body = .ok s') {m : Rattr.Node} (hmem : m ∈ body)
+    {f : Rattr.Node} {args : List Rattr.Node} {kwn : List (Option Str)} {kwv : List Rattr.Node}
+    (hu : Under (.call f args kwn kwv) m) :
+    Covers (accessesL args ++ accessesL kwv) s' :=
+  args_under_compound_reported hm hb h hmem hu
+
+open Rattr.AccessSpec in
+/-- **`C03_match_guard_call_is_own_call`** — the instance for `match subject: … case P if g(args): …`
+(`ast.Match(subject, cases)`, `ast.match_case(pattern, guard, body)`: no visitor of their own). -/
+theorem C03_match_guard_call_is_own_call {env : FnA.Env} {mn : Str} {F : Feat}
+    (hm : ModClean env mn) {root : Context} {ps : Params} {body : List Rattr.Node}
+    (hb : fragL (dirtyKeys env mn root) F body = true) {s' : Rattr.St}
+    (h : FnA.analyse env mn root ps body = .ok s')
+    {subject pattern : Rattr.Node} {before after caseBody : List Rattr.Node}
+    {f : Rattr.Node} {args : List Rattr.Node} {kwn : List (Option Str)} {kwv : List Rattr.Node}
+    (hmem : Rattr.Node.other "Match".toList (subject :: before ++
+        [.other "match_case".toList (pattern :: .call f args kwn kwv :: caseBody)] ++ after) ∈ body) :
+    ∃ c ∈ s'.calls, c.name = Strs.withoutCallBrackets (spell f) := by
+  apply call_under_compound_recorded hm hb h hmem
+  apply Under.other (n := .other "match_case".toList (pattern :: .call f args kwn kwv :: caseBody))
+  · simp
+  · exact Under.other (n := .call f args kwn kwv) (by simp) (Under.here _)
+
+/-! ### (4) a static method is registered before its body is analysed -/
+
+/-- **`C03_static_method_registered_before_body`** — `ClassAnalyser.visit_static_method`: the `Func`
+symbol `C.m` enters the context, THEN the body is analysed in that context. -/
+theorem C03_static_method_registered_before_body (env : FnA.Env) (mn cls : Str) (m : FileA.Method)
+    (s : FileA.FState) (cir : FileA.ClassIr) (k : FileA.FState → FileA.ClassIr → FileA.FOut) :
+    FileA.visitStatic env mn cls m s cir k =
+      FileA.analyseInto env mn m.ps m.body
+        { s with ctx := Context.add s.ctx (FnA.funcSym (cls ++ '.' :: m.name) m.ps.iface) }
+        (fun ir s => k s (Dict.set cir (FnA.funcSym (cls ++ '.' :: m.name) m.ps.iface) ir)) :=
+  FileA.visitStatic_registers_first env mn cls m s cir k
+
+/-- **`C03_static_body_sees_itself`** — in the state in which the body of `C.m` starts being visited
+(new scope, parameters bound) the dotted name `C.m` is bound to the method's own `Func` symbol, so
+a recursive call `C.m(...)` gets it as target and result generation unrolls the cycle
+(`C03_direct_recursion_unrolled_once`).  Hypotheses: nothing called `C.m` was visible before (a class
+attribute `m = …` registers the `Name` `C.m` first — then that stays), no parameter is spelled `C.m`. -/
+theorem C03_static_body_sees_itself (c : Context) (cls : Str) (m : FileA.Method)
+    (hfresh : Context.contains c (FnA.funcSym (cls ++ '.' :: m.name) m.ps.iface).name = false)
+    (hps : (FnA.funcSym (cls ++ '.' :: m.name) m.ps.iface).name ∉ m.ps.all) :
+    Context.get?
+      (FnA.addArguments { ctx := Context.push (Context.add c (FnA.funcSym (cls ++ '.' :: m.name) m.ps.iface)) } m.ps).ctx
+      (FnA.funcSym (cls ++ '.' :: m.name) m.ps.iface).name
+      = some (FnA.funcSym (cls ++ '.' :: m.name) m.ps.iface) :=
+  FileA.static_body_sees_itself c cls m hfresh hps
+
+end Rattr.C03
+
+/-! ### (5) the whole pipeline model on a module with all three -/
+
+namespace Rattr.C03
+open Rattr Rattr.Results Rattr.Pipeline Rattr.Spec
+
+/-- the model's encoding (rendered by `py/tools/lean_module.py`) of
+
+```
+def record(event, /, **fields):
+    event.seen = 1
+    return fields.extra
+class Ledger:
+    @staticmethod
+    def settle(debit, credit):
+        debit.balance = credit.limit
+        return Ledger.settle(credit, debit)
+def dispatch(msg, ctx):
+    match msg.kind:
+        case 1 if record(ctx, event=msg):
+            return Ledger.settle(msg, ctx)
+def route(m, c):
+    return dispatch(m, c)
+``` -/
+def modR : List Top :=
+  [.funcDef "record".toList ⟨["event".toList], [], none, [], (some "fields".toList)⟩
+      [(.assign [(.attr (.name "event".toList .load) "seen".toList .store)] .const), (.ret [(.attr (.name "fields".toList .load) "extra".toList .load)])]
+      [] false,
+   .classDef "Ledger".toList []
+     [.funcDef "settle".toList ⟨[], ["debit".toList, "credit".toList], none, [], none⟩
+      [(.assign [(.attr (.name "debit".toList .load) "balance".toList .store)] (.attr (.name "credit".toList .load) "limit".toList .load)), (.ret [(.call (.attr (.name "Ledger".toList .load) "settle".toList .load) [(.name "credit".toList .load), (.name "debit".toList .load)] [] [])])]
+      [⟨.named Ann.nStatic, none⟩] false]
+     [],
+   .funcDef "dispatch".toList ⟨[], ["msg".toList, "ctx".toList], none, [], none⟩
+      [(.other "Match".toList [(.attr (.name "msg".toList .load) "kind".toList .load), (.other "match_case".toList [(.other "MatchValue".toList [.const]), (.call (.name "record".toList .load) [(.name "ctx".toList .load)] [(some "event".toList)] [(.name "msg".toList .load)]), (.ret [(.call (.attr (.name "Ledger".toList .load) "settle".toList .load) [(.name "msg".toList .load), (.name "ctx".toList .load)] [] [])])])])]
+      [] false,
+   .funcDef "route".toList ⟨[], ["m".toList, "c".toList], none, [], none⟩
+      [(.ret [(.call (.name "dispatch".toList .load) [(.name "m".toList .load), (.name "c".toList .load)] [] [])])]
+      [] false]
+
+/-- what `python -m rattr -o results -f 0` prints for that file (checked against the real CLI):
+`event ↦ ctx` (NOT `msg`: the keyword `event=msg` went into `**fields ↦ @Dict`), one unrolling of
+`Ledger.settle` in itself, in `dispatch` and in `route`, and the guard's call among `dispatch`'s calls. -/
+def docR : ResultsDoc :=
+  [(S' "record", ⟨[S' "fields.extra"], [S' "event.seen"], [], []⟩),
+   (S' "Ledger.settle", ⟨[S' "credit", S' "credit.limit", S' "debit", S' "debit.limit"],
+     [S' "credit.balance", S' "debit.balance"], [], [S' "Ledger.settle()"]⟩),
+   (S' "dispatch", ⟨[S' "@Dict.extra", S' "ctx", S' "ctx.limit", S' "msg", S' "msg.kind", S' "msg.limit"],
+     [S' "ctx.balance", S' "ctx.seen", S' "msg.balance"], [], [S' "Ledger.settle()", S' "record()"]⟩),
+   (S' "route", ⟨[S' "@Dict.extra", S' "c", S' "c.limit", S' "m", S' "m.kind", S' "m.limit"],
+     [S' "c.balance", S' "c.seen", S' "m.balance"], [], [S' "dispatch()"]⟩)]
+
+/-- the two diagnostics of that run: the accepted call `record(ctx, event=msg)` is diagnosed "by
+position and name" once per root that reaches it (the known C04 finding) — the swaps are right. -/
+def dsR : List Diag :=
+  [mkDiag .error "swaps-by-position-and-name" (S' "record|event"),
+   mkDiag .error "swaps-by-position-and-name" (S' "record|event")]
+
+/-- TEST (kernel evaluation of the WHOLE pipeline model — root context, file / class / function
+analysers, call targets, call tree, fold, printed document — on the module above). -/
+theorem pipeline_test_round3 :
+    run envP (S' "target") {} [S' "print"] modR = .ok (docR, dsR) :=
+  eq_of_outcomeIs (by decide +kernel)
+
+end Rattr.C03
+
+/-! ### (6) Tie A for the code paths of round 3 (`py/tables/t_c03.py` → `RattrModel/Generated/C03.lean`) -/
+
+namespace Rattr.C03
+open Rattr
+
+/-- the `visit_*` methods of `FunctionAnalyser` (`dir()` of the class in the working tree) are the ones
+the model knows: every other AST class is visited generically (`other kind kids`). -/
+theorem tieA_function_visitors :
+    (Generated.C03.functionAnalyserVisitors.all (FnA.fnVisitors.contains ·) &&
+      FnA.fnVisitors.all (Generated.C03.functionAnalyserVisitors.contains ·)) = true := by decide
+
+/-- none of the AST classes the round-3 inputs put a call under (`Match`, `match_case`, the patterns,
+`If`, `While`, `Assert`, `Raise`, `Await`, `Yield`, `JoinedStr`, the operators, `Try`, …) has a
+dedicated visitor in the working tree: `C03_call_under_compound_is_own_call` speaks about them. -/
+theorem tieA_generic_kinds_have_no_visitor :
+    FnA.genericKinds.all (fun k => !Generated.C03.functionAnalyserVisitors.contains ("visit_" ++ k)) = true := by
+  decide
+
+/-- `ClassAnalyser.visit_static_method` in the working tree registers the `Func` symbol, THEN builds the
+`FunctionAnalyser` and runs it — the order `FileA.visitStatic` models
+(`C03_static_method_registered_before_body`). -/
+theorem tieA_static_method_steps : Generated.C03.staticMethodSteps = FileA.staticSteps := by decide
+
+end Rattr.C03
+
+/-! ### (7) the SPEC of "one unrolling" (`RattrModel/Spec/Unroll.lean`; tied to the harness' oracle by op `c03_spec`) -/
+
+namespace Rattr.C03
+open Rattr Rattr.Results Rattr.Cex Rattr.Spec
+
+/-- **`C03_unroll_is_derivable`** — the lower bound of the recursion clause never demands what its
+upper bound forbids: for every program, path and fuel, every name of `Spec.unroll` is in the
+unfolding `Spec.derive` of the same depth (hence `Derivable`). -/
+theorem C03_unroll_is_derivable (S : Spec.SProg) (d : Nat) (path : List Key) (f : Key) (k : Kind) (x : Str)
+    (h : x ∈ (Spec.unroll S d path f).of k) : x ∈ (Spec.derive S d f).of k :=
+  unroll_sub_derive S d path f k x h
+
+/-- the own accesses are part of every unrolling. -/
+theorem C03_unroll_contains_own (S : Spec.SProg) (d : Nat) (path : List Key) (f : Key) (k : Kind) (x : Str)
+    (h : x ∈ (Spec.ownAcc S f).of k) : x ∈ (Spec.unroll S d path f).of k :=
+  own_sub_unroll S d path f k x h
+
+/-- a directly recursive call Python accepts contributes the callable's own accesses under the
+binding of that call: the spec DEMANDS the first unrolling (what `C03_direct_recursion_unrolled_once`
+delivers for the pinned code). -/
+theorem C03_unroll_direct_recursion (S : Spec.SProg) (d : Nat) (f : Key) (c : CallRec) (b : Dict Str Str)
+    (hc : c ∈ (fnAt S.prog f).calls) (hr : S.prog.resolve c.cid = some f)
+    (hb : Spec.binding S f c = some b) (k : Kind) (m : Str) (hm : m ∈ (Spec.ownAcc S f).of k) :
+    Spec.subst b m ∈ (Spec.unroll S (d + 1) [f] f).of k :=
+  unroll_direct_recursion S d f c b hc hr hb k m hm
+
+def Sswap : Spec.SProg := { prog := Pswap, sigs := [sig ["a", "b"], sig ["x", "y"], sig ["u", "v"]], own := σswap }
+
+/-- TEST (kernel evaluation): on the recursive program `Pswap` the pinned code's results, for every root
+and both orders, are EXACTLY the spec's one unrolling — in the recursive function, its caller and the
+caller's caller. -/
+theorem C03_test_unroll_swap :
+    (Spec.unrollRoot Sswap 0).sets = [s "a.left", s "b.left"] ∧
+    (Spec.unrollRoot Sswap 0).gets = [s "b.right", s "a.right"] ∧
+    setsOf Pswap σswap [0, 1, 2] 1 = some (Spec.unrollRoot Sswap 1).sets ∧
+    getsOf Pswap σswap [0, 1, 2] 2 = some (Spec.unrollRoot Sswap 2).gets ∧
+    setsOf Pswap σswap [2, 1, 0] 2 = some (Spec.unrollRoot Sswap 2).sets := by decide +kernel
+
+end Rattr.C03
+
